@@ -120,11 +120,18 @@ def main(ctx, args):
     known = load_known("C05")
     if not extract(ctx):
         ctx.finish()
-    proved = prove(ctx, MODULES)
+    proved = prove(ctx, MODULES, drivers=["drv_c05", "drv_mir"])
     if proved and ctx.tier == "thorough":
         proved = leancheck(ctx, MODULES)
     if not build_harness(ctx):
         ctx.finish()
+    # the kernel-evaluated examples of Props/C05, C03, C18 are stated on Lean terms generated from real dumps
+    # (tools/mirlean.py, corpus/MIR/*.mmm): are they still what the compiler produces?
+    ex = run([sys.executable, os.path.join(VERIF, "tools", "mirlean.py"), "--check"], cwd=VERIF)
+    example_state = ex.stdout.strip() or ("error: " + ex.stderr[-200:])
+    if example_state != "current":
+        ctx.notes.append("the MIR of corpus/MIR/*.mmm changed since lean/Mimium/Proofs/MirExample.lean was generated (" + example_state +
+                         "): regenerate with `python3 tools/mirlean.py` and re-check the examples")
     times = 12 if ctx.tier == "quick" else 48
     # the streams "f3" / "f2" were layout-only while findings F3 (state inside `if` arms) and F2 (several delay sizes) were
     # open; both are repaired, they are ordinary run streams now
@@ -141,6 +148,18 @@ def main(ctx, args):
             allcases += cs
     res = run_c05(allcases)
     lo_cases, lo_res = [], {}      # (no layout-only stream any more)
+    # layout-only stream (compiled, not run: times = 0): the streams aimed AT findings F3 (state inside `if` arms) and F2
+    # (several delay sizes), where the run-time accesses are known to be wrong but what mirgen PUBLISHES is still modelled
+    lo_cases = []
+    if not args.replay:
+        for prof, n in ([("f3", 400), ("f2", 100)] if ctx.tier == "quick" else [("f3", 4000), ("f2", 1000)]):
+            cs, _ = pc.gen_cases(ctx.seed, n, prof, 0, start=0)
+            lo_cases += cs
+    lo_res = run_c05(lo_cases) if lo_cases else {}
+    # the per-program proof obligation: `stateOkFn` (Model/MirState.lean) on every function of the MIR the compiler produced
+    static = pc.mir_static(allcases + lo_cases)
+    # and the state semantics itself: trace, cursor and storage words of the Lean MIR run against the VM's hook records, per sample
+    mtr = pc.mir_traces(allcases)
     failures, stats, nontriv, samples = [], collections.Counter(), set(), []
     layout_diffs, layout_samples, layout_nontriv = [], [], set()
 
@@ -202,6 +221,74 @@ def main(ctx, args):
         status, skel, recs, verdict, pub = lo_res[c["id"]]
         stats["layout_only_programs"] += 1
         account_layout(c, status, skel, pub)
+    # static state check of the MIR against the per-program trace verdicts
+    sstat, s_limits, s_contra = collections.Counter(), [], []
+    failed_ids = {c["id"] for c, _, _ in failures}
+    for c in allcases:
+        st = static.get(c["id"], {"status": "missing"})
+        if st["status"] != "ok":
+            sstat["not_dumped_" + st["status"]] += 1
+            continue
+        sstat["programs"] += 1
+        sstat["functions"] += st["fns"]
+        sstat["functions_pass"] += st["ok"]
+        sstat["programs_all_functions_pass"] += st["ok"] == st["fns"]
+        if not st["checked"]:
+            s_contra.append((c, "okSet is not closed under the check (okSetChecked = false)", st))
+        ran_ok = res[c["id"]][0] == "ok"
+        conform = ran_ok and c["id"] not in failed_ids
+        dsp_pass = "dsp" not in st["fail"]
+        if dsp_pass and ran_ok:
+            sstat["dsp_passes_and_vm_traces_conform" if conform else "dsp_passes_but_vm_traces_do_not_conform"] += 1
+            if not conform:
+                s_contra.append((c, "dsp passes the static check but the VM's recorded traces do not conform", st))
+        if st["fail"] and conform:
+            sstat["programs_with_a_failing_function_whose_traces_conform"] += 1
+            if len(s_limits) < 5:
+                s_limits.append({"src": c["src"], "failing_functions": st["fail"]})
+    tstat, t_bad = collections.Counter(), []
+
+    def canon_words(ws):
+        """state words with every NaN written `nan` (the property's own convention; Lean's Float.toBits canonicalises NaN)"""
+        if ws == ".":
+            return ws
+        out = []
+        for w in ws.split(","):
+            v = int(w, 16)
+            out.append("nan" if (v >> 52) & 0x7ff == 0x7ff and v & ((1 << 52) - 1) else w)
+        return ",".join(out)
+    for c in allcases:
+        status, skel, recs, verdict, pub = res[c["id"]]
+        m = mtr.get(c["id"], "missing")
+        if status != "ok" or recs in ("-", ""):
+            continue
+        if not m.startswith("ok "):
+            tstat["mir_run_" + m.split(" ")[0]] += 1
+            if c["id"] not in failed_ids and not m.startswith("unsupported"):
+                t_bad.append((c, "the MIR run ends `" + m[:80] + "` where the VM runs and conforms", None))
+            continue
+        tstat["programs_compared"] += 1
+        vm_recs, mir_recs = recs.split("|"), m[3:].split("|")
+        for k, (a, b) in enumerate(zip(vm_recs, mir_recs)):
+            fa, fb = a.split("@"), b.split("@")
+            # the hook also records accesses to closure storages (g=0): the MIR run's trace is that of the global storage
+            ga = ";".join(x for x in fa[0].split(";") if x.split(":")[1:2] == ["1"]) or "."
+            tstat["samples_compared"] += 1
+            if (ga, fa[1], canon_words(fa[2])) != (fb[0], fb[1], canon_words(fb[2])):
+                tstat["samples_differ"] += 1
+                if c["id"] not in failed_ids:
+                    t_bad.append((c, f"sample {k}: VM trace/cursor/words {ga}@{fa[1]}@{fa[2][:120]} vs MIR run {fb[0]}@{fb[1]}@{fb[2][:120]}", k))
+                break
+        else:
+            if len(vm_recs) != len(mir_recs):
+                t_bad.append((c, f"{len(vm_recs)} VM records vs {len(mir_recs)} MIR records", None))
+            else:
+                tstat["programs_equal"] += 1
+    for c in lo_cases:
+        st = static.get(c["id"], {"status": "missing"})
+        if st["status"] == "ok":
+            sstat["layout_only_stream_programs"] += 1
+            sstat["layout_only_stream_programs_with_a_failing_function"] += bool(st["fail"])
     kres = run_c05([{"id": k["id"], "src": k["src"], "inputs": k.get("inputs", []), "times": k.get("times", 8)} for k in known if "src" in k], nshards=1) if known else {}
     for k in known:
         if "src" not in k:
@@ -248,6 +335,20 @@ def main(ctx, args):
                 rep["src"], rep["sx"] = rep["shrunk"]["src"], rep["shrunk"]["sx"]
             ctx.violation(f"the state layout the Lean model of mirgen publishes for dsp differs from the compiler's on {len(group)} programs, {label} "
                           f"(compiler {skel}, model {pi.get('model')}); smallest:\n{rep['src']}", rep)
+    if t_bad and not failures:
+        t_bad.sort(key=lambda f: len(f[0]["src"]))
+        c, why, k = t_bad[0]
+        ctx.violation(f"state semantics of the MIR: {why} ({len(t_bad)} programs) — Model/Mir.lean (vmStep on the MIR's state instructions) and the VM "
+                      f"disagree about the accesses or the storage words; smallest:\n{c['src']}",
+                      {"src": c["src"], "inputs": c["inputs"], "times": c["times"], "why": "mir-trace:" + why[:300], "case_id": c["id"],
+                       "correspondence": "drv_mir trace vs VM hook records"}, found_input=False)
+    if s_contra and not failures:
+        s_contra.sort(key=lambda f: len(f[0]["src"]))
+        c, why, st = s_contra[0]
+        ctx.violation(f"static state check of the MIR: {why} ({len(s_contra)} programs): the MIR semantics (Model/Mir.lean), its dump or "
+                      f"bytecodegen disagree about this program; smallest:\n{c['src']}",
+                      {"src": c["src"], "inputs": c["inputs"], "times": c["times"], "why": "mir-static:" + why, "static": st,
+                       "correspondence": "C05_mir_state_ok_sound vs recorded VM traces", "case_id": c["id"]}, found_input=False)
     if not proved and not failures and not layout_diffs:
         ctx.violation("proof obligation broken: " + "; ".join(ctx._broken), {"stage": "prove", "theorems": ctx._broken,
                       "lake": getattr(ctx, "_lake_errors", "")}, found_input=False)
@@ -264,6 +365,16 @@ def main(ctx, args):
         "programs_judged_selected(state in arms)": stats["programs_judged_sel"],
         "of_which_with_a_skipped_access": stats["programs_sel_with_skipped_access"],
         "accesses_skipped_by_untaken_arms": stats["accesses_skipped_by_untaken_arms"],
+        "mir_static_state_check": {
+            "rule": "stateOkFn (Model/MirState.lean; soundness C05_mir_state_ok_sound) evaluated by drv_mir on every function of the MIR the "
+                    "real compiler produced for every program of the run; `okSetChecked` must hold for the computed set; a program whose dsp "
+                    "passes must have conforming VM traces (else violation); a failing function with conforming traces is a limitation",
+            **dict(sstat), "limitations_samples": s_limits, "contradictions": len(s_contra),
+            "kernel_evaluated_examples_are_current_compiler_output": example_state},
+        "mir_run_vs_vm_state_records": {
+            "rule": "per sample: the accesses to the global storage the Lean MIR run records (Model/Mir.lean: vmStep on the MIR's state instructions), "
+                    "the cursor after the sample and EVERY word of the global storage, against the VM's hook records (text equality)",
+            **dict(tstat), "disagreements": len(t_bad)},
         "published_layout_model_vs_compiler": {
             "rule": "publishedSk (publishFn P dsp) of Model/Publish.lean, computed from the program's S-expression, equals get_dsp_state_skeleton of the real compiler (text equality of the skeleton); non-trivial = at least 2 cells",
             "compared": stats["layouts_compared"],
